@@ -12,6 +12,7 @@ import (
 	"fmt"
 	"sort"
 	"strings"
+	"sync"
 	"testing"
 	"time"
 
@@ -58,7 +59,7 @@ func c05Gen(rt *rapid.T) c05Case {
 			}
 		}
 	}
-	kinds := []string{"sub", "sub", "cancel", "relay", "unrelay", "unrelay2", "close", "connect", "disconnect", "reset", "reset", "wait", "quiet", "skelsub", "publish", "flap"}
+	kinds := []string{"sub", "sub", "cancel", "relay", "unrelay", "unrelay2", "close", "connect", "disconnect", "reset", "reset", "wait", "quiet", "skelsub", "skelreopen", "publish", "flap", "gray", "ungray"}
 	n := rapid.IntRange(1, 24).Draw(rt, "nops")
 	// most histories concentrate on one node and one topic, so that reference counts go up and down repeatedly;
 	// the generator tracks what is live so that cancellations hit live subscriptions and relays
@@ -196,8 +197,21 @@ func c05RunInBubble(t *testing.T, c c05Case, res *vfResult) {
 		return
 	}
 	defer s.close()
+	// gossipsub nodes score their peers with an application score the history can push below the graylist threshold
+	var scoreMu sync.Mutex
+	appScore := map[[2]int]float64{}
 	for i := 0; i < N; i++ {
-		if err := s.start(i, c.Routers[i], WithPeerOutboundQueueSize(c.Queue)); err != nil {
+		nopts := []Option{WithPeerOutboundQueueSize(c.Queue)}
+		if c.Routers[i] == "gossipsub" {
+			i := i
+			nopts = append(nopts, WithPeerScore(&PeerScoreParams{AppSpecificWeight: 1, AppSpecificScore: func(p peer.ID) float64 {
+				scoreMu.Lock()
+				defer scoreMu.Unlock()
+				return appScore[[2]int{i, s.idx(p)}]
+			}, DecayInterval: time.Second, DecayToZero: 0.01, Topics: map[string]*TopicScoreParams{}},
+				&PeerScoreThresholds{GossipThreshold: -10, PublishThreshold: -20, GraylistThreshold: -30}))
+		}
+		if err := s.start(i, c.Routers[i], nopts...); err != nil {
 			res.Inconclusive = err.Error()
 			return
 		}
@@ -454,6 +468,47 @@ func c05RunInBubble(t *testing.T, c c05Case, res *vfResult) {
 				}
 				skelInterest[op.T] = want
 				res.label("observer-subscribes")
+			}
+		case "gray", "ungray":
+			// node A's opinion of peer B drops below the graylist threshold (its RPCs are ignored, its subscriptions are not)
+			if op.A != op.B && c.Routers[op.A] == "gossipsub" {
+				scoreMu.Lock()
+				if op.Kind == "gray" {
+					appScore[[2]int{op.A, op.B}] = -100
+					res.label("peer-graylisted")
+					res.NT = true
+				} else {
+					delete(appScore, [2]int{op.A, op.B})
+				}
+				scoreMu.Unlock()
+			}
+		case "skelreopen":
+			// the observer drops a topic by starting a new stream to node A whose first packet no longer names it, while
+			// its old stream to A is still open: the new stream replaces the old one and what was learnt on that
+			if edge[norm(a, N)] && skel.hasOut(a) && skelInterest[op.T] {
+				// the old stream is established at the node before the new one is opened (two streams opened in the same
+				// instant can reach the node in either order, and it would rightly keep the one that arrived last)
+				s.wait(300 * time.Millisecond)
+				for j := 0; j < N; j++ {
+					if j != a && skel.hasOut(j) {
+						skel.send(j, &vfSubRPC(vfTopic(op.T), false).RPC)
+					}
+				}
+				if err := skel.reopenOut(a, c05SkelProto(c.Routers[a])); err != nil {
+					res.Inconclusive = fmt.Sprintf("observer could not open a second stream: %v", err)
+					break
+				}
+				skelInterest[op.T] = false
+				// (streams are negotiated lazily: the node sees the new stream with its first bytes, so the first packet
+				// always carries something - a topic nobody else cares about)
+				skel.send(a, &vfSubRPC("observer-only", true).RPC)
+				for tp := 0; tp < c05Topics; tp++ {
+					if skelInterest[tp] {
+						skel.send(a, &vfSubRPC(vfTopic(tp), true).RPC)
+					}
+				}
+				res.label("observer-replaces-its-stream")
+				res.NT = true
 			}
 		case "publish":
 			if th := m.topics[op.T]; th != nil {
